@@ -1,9 +1,64 @@
 import LinfaSpec.Model.Proto
+import LinfaSpec.Model.Wire
+import LinfaSpec.Gen.C19Types
 
+/-!
+Driver for C19.
+
+`wire type=<crate::Type | -> named=<0|1> bytes=<hex>`: the bytes are what the real `rmp-serde`
+wrote for a linfa value.  The model decodes them (`Wire.decodeAll`), re-encodes the decoded value
+(`Wire.encode`, must reproduce the bytes: `reenc=1`), checks the top-level shape against the type
+table generated from the Rust sources (`shape=1`), and prints the value in canonical text, which
+the harness produces independently from the value's `Serialize` implementation.
+
+`schema type=<crate::Type>`: the generated table entry (live and skipped members).
+-/
 namespace LinfaSpec.Drv.C19
-open LinfaSpec.Proto
+open LinfaSpec.Proto LinfaSpec.Wire
 
-/-- stub: replaced when the property's model lands -/
-def handle (_toks : List String) : String := "bad-op"
+def parseBytes (s : String) : Option Bytes :=
+  let rec go : List Char → List UInt8 → Option (List UInt8)
+    | [], acc => some acc.reverse
+    | [_], _ => none
+    | a :: b :: rest, acc => match hexDigit a, hexDigit b with
+      | some x, some y => go rest (UInt8.ofNat (x * 16 + y) :: acc)
+      | _, _ => none
+  if s == "-" then some [] else go s.toList []
+
+def findType (id : String) : Option TypeInfo :=
+  LinfaSpec.Gen.C19Types.types.find? fun t => t.id == id
+
+def handleWire (toks : List String) : Option String := do
+  let ty ← arg toks "type"
+  let named ← argNat toks "named"
+  let bs ← (arg toks "bytes").bind parseBytes
+  match decodeAll bs with
+  | none => some "undecodable"
+  | some v =>
+    let reenc := if encode v == bs then 1 else 0
+    let shape ← if ty == "-" then some "1" else
+      match findType ty with
+      | none => some "unknown-type"
+      | some t => some (if shapeMatches (named == 1) t v then "1" else "0")
+    some s!"ok reenc={reenc} wf={if v.wf then 1 else 0} shape={shape} nf={floatLeaves v} val={render v}"
+
+def showFields (fs : List FieldInfo) : String :=
+  let s := showList (fun (f : FieldInfo) => f.name ++ (if f.skip then "!" else "")) fs
+  if s.isEmpty then "-" else s
+
+def handleSchema (toks : List String) : Option String := do
+  let ty ← arg toks "type"
+  match findType ty with
+  | none => some "unknown-type"
+  | some t =>
+    let vs := showList (fun (w : VariantInfo) => w.name ++ "/" ++ w.kind ++ (if w.skip then "!" else "")) t.variants
+    some s!"ok kind={t.kind} fields={showFields t.fields} variants={if vs.isEmpty then "-" else vs}"
+
+def handle (toks : List String) : String :=
+  let r := match toks with
+    | "wire" :: rest => handleWire rest
+    | "schema" :: rest => handleSchema rest
+    | _ => none
+  r.getD "bad-op"
 
 end LinfaSpec.Drv.C19
